@@ -3733,6 +3733,10 @@ func matchExactRegex(v string) ([]string, bool) {
 	return matchRegex(re)
 }
 
+// maxRegexLiterals bounds the number of literals a regular expression is expanded to;
+// a larger expansion is not rewritten and the expression stays a regular expression.
+const maxRegexLiterals = 1024
+
 // matchRegex will match a regular expression to literals if possible.
 func matchRegex(re *syntax.Regexp) ([]string, bool) {
 	// Exit if we see a case-insensitive flag as it is not something we support at this time.
@@ -3777,6 +3781,9 @@ func matchRegex(re *syntax.Regexp) ([]string, bool) {
 			}
 
 			// The long method of using multiple concatenations.
+			if len(names)*len(vals) > maxRegexLiterals {
+				return nil, false
+			}
 			concat := make([]string, len(names)*len(vals))
 			for i := range names {
 				for j := range vals {
@@ -3790,6 +3797,9 @@ func matchRegex(re *syntax.Regexp) ([]string, bool) {
 		var sz int
 		for i := 0; i < len(re.Rune); i += 2 {
 			sz += int(re.Rune[i+1]) - int(re.Rune[i]) + 1
+		}
+		if sz > maxRegexLiterals {
+			return nil, false
 		}
 
 		names := make([]string, 0, sz)
@@ -3807,6 +3817,9 @@ func matchRegex(re *syntax.Regexp) ([]string, bool) {
 				return nil, false
 			}
 			names = append(names, vals...)
+			if len(names) > maxRegexLiterals {
+				return nil, false
+			}
 		}
 		return names, true
 	}
